@@ -16,4 +16,9 @@ for h in _g["HARNESSES"]:
         h2["name"] = "cache_" + h["name"]
         h2["cases"] = [c for c in h["cases"] if c.get("tier", "quick") == "quick"]
         HARNESSES.append(h2)
-PROPERTY = dict(level="other", explanation="", bounds="", outside="", assumptions=[])
+PROPERTY = dict(level='other',
+    claim='Lock discipline of the session cache operations for all inputs and paths: every access to g_sessionTable / g_sessionChronList happens under g_sessionTableLock, one critical section per operation, no relock, no nested locks, lock released on every return - a sufficient condition for race freedom and serializability of these operations.',
+    bounds='matrixRegisterSession, matrixResumeSession, matrixUpdateSession, matrixClearSession',
+    outside='interleavings cannot be encoded (CBMC aborts on this code with concurrency); ticket-key list, ephemeral ECDHE key cache, PRNG and CRL cache are not yet instrumented',
+    explanation='Sequential lockset check decided by CBMC: derive.py wraps every textual use of the shared objects with a guard that asserts the designated mutex is held (ghost lock state in psLockMutex/psUnlockMutex stubs); assertions cover all paths of each operation from an arbitrary table state.',
+    assumptions=[])
